@@ -72,7 +72,7 @@ def load_known():
         return json.load(fh).get("findings", [])
 
 
-def run_check(prop: str, tier: str, runs=None, workers=None, budget_s=None, opts=None, write_evidence=True, quiet=False, stop_on_violation=False):
+def run_check(prop: str, tier: str, runs=None, workers=None, budget_s=None, opts=None, write_evidence=True, quiet=False, stop_on_violation=False, first_run=0):
     mod = importlib.import_module(CHECKS[prop])
     ex.bootstrap()
     base = util.base_seed()
@@ -88,7 +88,7 @@ def run_check(prop: str, tier: str, runs=None, workers=None, budget_s=None, opts
     if not quiet:
         print(f"[{prop}] VERIF_SEED={base} tier={tier} runs={n} workers={workers} repo={ex.REPO}", flush=True)
     util.scratch_root()
-    tasks = [(list(range(s, min(n, s + chunk))), base, tier, opts or {}) for s in range(0, n, chunk)]
+    tasks = [(list(range(s, min(n, s + chunk))), base, tier, opts or {}) for s in range(first_run, n, chunk)]
     results = []
     exhausted = False
     ctx = multiprocessing.get_context("fork")
@@ -330,6 +330,7 @@ def main(argv=None):
     ap.add_argument("--budget", type=float)
     ap.add_argument("--no-evidence", action="store_true")
     ap.add_argument("--short", action="store_true")
+    ap.add_argument("--first-run", type=int, default=0, help="(tooling) explore only the runs of the tier from this index on")
     ap.add_argument("--stop-on-violation", action="store_true", help="(tooling) stop exploring after the first run that shows a violation")
     a = ap.parse_args(argv)
 
@@ -356,7 +357,7 @@ def main(argv=None):
         elif a.replay:
             code = replay(a.prop, a.replay)
         else:
-            code, _m, _r = run_check(a.prop, a.tier, runs=a.runs, workers=a.workers, budget_s=a.budget, write_evidence=not a.no_evidence, stop_on_violation=a.stop_on_violation)
+            code, _m, _r = run_check(a.prop, a.tier, runs=a.runs, workers=a.workers, budget_s=a.budget, write_evidence=not a.no_evidence and not a.first_run, stop_on_violation=a.stop_on_violation, first_run=a.first_run)
     except SystemExit as e:
         code = e.code if isinstance(e.code, int) else 2
     except BaseException:  # noqa: BLE001
